@@ -55,10 +55,16 @@ fn completed(rx: &mut tokio::sync::oneshot::Receiver<()>) -> bool {
     matches!(rx.try_recv(), Err(TryRecvError::Closed))
 }
 
-/// one writer-loop iteration: drain, then handle wakers (exactly the two calls `Receiver::run` makes)
-fn writer_step<const CAP: usize>(t: &mut hooks::Tracker, g: &mut Ghost<CAP>) -> bool {
+/// one writer-loop iteration: drain, then handle wakers (exactly the two calls `Receiver::run` makes).
+/// Between the end of the drain and the moment the tracker reads the flush-request channel, producers may append
+/// more entries and send a request (`late`): the drain result then describes an older queue state.
+fn writer_step<const CAP: usize>(t: &mut hooks::Tracker, g: &mut Ghost<CAP>, late: &mut Option<Req>) -> bool {
     let (drained, n) = g.drain();
     let popped_now = g.popped;
+    if late.is_none() && kani::any() {
+        g.produce();
+        *late = Some(Req { rx: hooks::send_flush(), need: g.pushed, done: false });
+    }
     let mut flushed = false;
     t.handle_waiting_wakers(|| CAP, || flushed = true, drained, n);
     if flushed {
@@ -78,15 +84,9 @@ fn check_req<const CAP: usize>(r: &mut Req, g: &Ghost<CAP>) {
     }
 }
 
-queue_harness! {
-// @check C04 quick timeout=1800 mem=14
-// @encodes sink::background::WakerTracker::{new, handle_waiting_wakers, will_progress_on_drained_queue}, tokio::sync::oneshot::{channel, Sender::drop, Receiver::try_recv}
-// @bounds queue capacity 2; 4 writer iterations; before each: producers append 0..=3 entries (overflow displaces), and a flush request may arrive before iterations 1 and 2 (two requests); each drain is symbolically Drained or HitDeadline with a symbolic count >= 1 consistent with the ghost queue
-// @oracle S1: whenever a request's future completes, every entry appended before the request was handed to the stream or displaced, and flush_stream ran after the last of them; S2: will_progress_on_drained_queue() => the next Drained iteration completes the pending requests; L1: a request picked up at iteration i is complete after at most capacity further popped entries or the first Drained iteration
-// @stubs mpsc::Receiver::try_recv (model queue in verif_hooks), tracing x4, Instant::now, alloc::fmt::format
-// @outside the run loop's park/deadline glue; cross-thread happens-before between append and request (the ghost model orders them); 'completes immediately after shutdown' (needs mpsc::Sender::send: Kani ICE)
-#[kani::unwind(4)]
-pub fn tracker_safety_and_liveness() {
+/// the scenario shared by the quick / thorough harnesses: `ITERS` writer iterations, request 1 may arrive before
+/// iteration 1, request 2 (only if `TWO`) before iteration 2
+fn scenario<const ITERS: usize, const TWO: bool>() -> bool {
     const CAP: usize = 2;
     let mut t = hooks::Tracker::new();
     let mut g: Ghost<CAP> = Ghost { pushed: 0, popped: 0, displaced: 0, flushed_upto: 0, flushes: 0 };
@@ -96,51 +96,88 @@ pub fn tracker_safety_and_liveness() {
     let r1_now: bool = kani::any();
     let mut r1 = if r1_now { Some(Req { rx: hooks::send_flush(), need: g.pushed, done: false }) } else { None };
     g.produce(); // appended after the request: not covered by it
-    let d1 = writer_step(&mut t, &mut g);
+    let mut late: Option<Req> = None;
+    let _d1 = writer_step(&mut t, &mut g, &mut late);
     if let Some(r) = r1.as_mut() { check_req(r, &g); }
-    let picked_at_1 = r1_now;
+    if let Some(r) = late.as_mut() { check_req(r, &g); }
     let popped_after_1 = g.popped;
     let progress_1 = t.will_progress_on_drained_queue();
-    if picked_at_1 {
+    if r1_now {
         assert!(progress_1 && t.entries_before_wake() == CAP, "a new request waits for one queue-capacity of entries");
+    } else if late.is_none() {
+        assert!(!progress_1, "nothing pending => the writer may park");
     }
-    let _ = d1;
 
     // iteration 2
     g.produce();
-    let r2_now: bool = kani::any();
+    let r2_now: bool = if TWO { kani::any() } else { false };
     let mut r2 = if r2_now { Some(Req { rx: hooks::send_flush(), need: g.pushed, done: false }) } else { None };
-    let d2 = writer_step(&mut t, &mut g);
+    let d2 = writer_step(&mut t, &mut g, &mut late);
     if let Some(r) = r1.as_mut() { check_req(r, &g); }
     if let Some(r) = r2.as_mut() { check_req(r, &g); }
+    if let Some(r) = late.as_mut() { check_req(r, &g); }
     if progress_1 && d2 {
         // S2: a drained iteration makes progress on the pending request
         assert!(r1.as_ref().map(|r| r.done).unwrap_or(true), "drained queue completes the pending flush");
     }
+    let mut any_drained = d2;
 
     // iteration 3
     g.produce();
-    let d3 = writer_step(&mut t, &mut g);
+    let d3 = writer_step(&mut t, &mut g, &mut late);
     if let Some(r) = r1.as_mut() { check_req(r, &g); }
     if let Some(r) = r2.as_mut() { check_req(r, &g); }
+    if let Some(r) = late.as_mut() { check_req(r, &g); }
+    any_drained |= d3;
 
-    // iteration 4
-    g.produce();
-    let d4 = writer_step(&mut t, &mut g);
-    if let Some(r) = r1.as_mut() { check_req(r, &g); }
-    if let Some(r) = r2.as_mut() { check_req(r, &g); }
+    if ITERS >= 4 {
+        g.produce();
+        let d4 = writer_step(&mut t, &mut g, &mut late);
+        if let Some(r) = r1.as_mut() { check_req(r, &g); }
+        if let Some(r) = r2.as_mut() { check_req(r, &g); }
+        if let Some(r) = late.as_mut() { check_req(r, &g); }
+        any_drained |= d4;
+    }
 
     // L1: r1 was picked up in iteration 1; it must be complete once CAP more entries were popped or a drain emptied the queue
     if let Some(r) = r1.as_ref() {
-        if d2 || d3 || d4 || g.popped - popped_after_1 >= CAP as u64 {
+        if any_drained || g.popped - popped_after_1 >= CAP as u64 {
             assert!(r.done, "bounded writer progress completes the flush even if producers never stop");
         }
     }
-    kani::cover!(r1.as_ref().map(|r| r.done).unwrap_or(false) && !d2 && !d3 && !d4, "request completed although the queue never drained");
-    kani::cover!(r2.as_ref().map(|r| r.done).unwrap_or(false), "second request completed");
+    kani::cover!(r1.as_ref().map(|r| r.done).unwrap_or(false) && !any_drained, "request completed although the queue never drained");
     kani::cover!(g.displaced > 0 && r1.as_ref().map(|r| r.done).unwrap_or(false), "overflow happened while a flush was pending");
+    kani::cover!(late.as_ref().map(|r| r.done).unwrap_or(false), "a request that raced with the end of a drain completed");
+    let r2_done = r2.as_ref().map(|r| r.done).unwrap_or(false);
     core::mem::forget(t);
     core::mem::forget(r1);
     core::mem::forget(r2);
+    core::mem::forget(late);
+    r2_done
+}
+
+queue_harness! {
+// @check C04 quick timeout=1800 mem=20
+// @encodes sink::background::WakerTracker::{new, handle_waiting_wakers, will_progress_on_drained_queue}, tokio::sync::oneshot::{channel, Sender::drop, Receiver::try_recv}
+// @bounds queue capacity 2; 3 writer iterations; before each: producers append 0..=3 entries (overflow displaces the oldest); one flush request may arrive before iteration 1, and one more may race with the end of any drain (sent, together with fresh appends, after the drain returned but before the tracker reads the request channel); each drain is symbolically Drained or HitDeadline with a symbolic count >= 1 consistent with the ghost queue
+// @oracle S1: whenever the request's future completes, every entry appended before it was handed to the stream or displaced, and flush_stream ran after the last of them; S2: will_progress_on_drained_queue() holds exactly while a request is pending and the next Drained iteration completes it; L1: the request is complete after at most `capacity` further popped entries or the first Drained iteration, even if producers never stop
+// @stubs mpsc::Receiver::try_recv (model queue in verif_hooks), tracing x4, Instant::now, alloc::fmt::format, Parker::park_deadline, Unparker::unpark
+// @outside the run loop's park/deadline glue; cross-thread happens-before between append and request (the ghost model orders them); 'completes immediately after shutdown' (needs mpsc::Sender::send: Kani ICE)
+#[kani::unwind(4)]
+pub fn tracker_one_request() {
+    let _ = scenario::<3, false>();
+}
+}
+
+queue_harness! {
+// @check C04 thorough timeout=7200 mem=40
+// @encodes sink::background::WakerTracker::{handle_waiting_wakers, will_progress_on_drained_queue}, tokio oneshot
+// @bounds capacity 2; 4 writer iterations; two flush requests (before iterations 1 and 2)
+// @oracle same as tracker_one_request, for both requests (a request arriving while another is pending is only collected after the first batch completed, and still satisfies S1)
+// @stubs same as tracker_one_request
+#[kani::unwind(4)]
+pub fn tracker_two_requests() {
+    let r2_done = scenario::<4, true>();
+    kani::cover!(r2_done, "second request completed");
 }
 }
